@@ -182,3 +182,15 @@ Example guard_satisfiable_small_cache :
   guard_b c ops = true
   /\ run c st0 (fixed_order c ops) = map (spec_answer c) ops.
 Proof. split; vm_compute; reflexivity. Qed.
+
+(* the property-text guard: default enable heights, a non-zero formatting fork
+   with all conversions above it, only inputs some driver accepts *)
+Definition default_ops : list op :=
+  [OCheck 0 5; OCheck 2 50; OPub 2 0 20; OCheck 0 50; OPub 2 0 31; ODapp 2 3; OPub (-1) 1 40].
+
+Example default_guard_satisfiable :
+  all_zero cfg_fmtfork = true
+  /\ fmt_side_b cfg_fmtfork true default_ops = true
+  /\ all_unambiguous cfg_fmtfork default_ops = true
+  /\ c_ffmt cfg_fmtfork = 15.
+Proof. repeat split; vm_compute; reflexivity. Qed.
